@@ -85,6 +85,16 @@ def mustConsumeOKB (ch : Chain) : List Nat :=
       t != tUnused && f.c.out.contains t &&
       !(ch.any fun g => g.inc && g.pos > f.pos && g.inTypes.contains t && nearestDownSource ch g.pos t == some f.pos)).map (·.c.id)
 
+/-- C14 (what `C14_bound_chain_mustconsume_is_consumed` proves of the model, evaluated on the
+    implementation's bound chain): an included provider marked MustConsume for `t` has an included
+    provider listed after it that takes `t` as an input -- or the init function takes it as a parameter
+    bypassing invoke -/
+def mustConsumeTakenB (ch : Chain) : List Nat :=
+  let ip := (ch.find? fun f => f.c.cls == .initFunc).map (·.pos)
+  (ch.filter fun f => f.inc && f.c.mustConsume.any fun t =>
+      t != tUnused && f.c.out.contains t &&
+      !(ch.any fun g => g.inc && ((decide (g.pos > f.pos) && g.c.inp.contains t) || (ip == some g.pos && g.c.byp.contains t)))).map (·.c.id)
+
 /-- C01 (Loose clause): the interface inputs `(consumer id, interface, concrete type)` of included
     providers that are satisfied by another type although the nearest included source of that type is not
     marked Loose for the interface -/
